@@ -1065,7 +1065,24 @@ func AllStacks() string {
 // returns (finished, confirmedStuck, description).
 func Watch(d, gap time.Duration, f func()) (finished bool, stuck bool, desc string) {
 	done := make(chan struct{})
-	go func() { defer close(done); f() }()
+	var panicked any
+	var panicStack string
+	go func() {
+		defer close(done)
+		defer func() {
+			if r := recover(); r != nil {
+				panicked, panicStack = r, string(debug.Stack())
+			}
+		}()
+		f()
+	}()
+	// a panic inside f is re-raised in the caller's goroutine, where the case-level recovery turns it into
+	// a violation (an unrecovered panic in this helper goroutine would take the whole process down)
+	defer func() {
+		if finished && panicked != nil {
+			panic(fmt.Sprintf("%v\n%s", panicked, trimStack(panicStack)))
+		}
+	}()
 	select {
 	case <-done:
 		return true, false, ""
